@@ -348,9 +348,9 @@ def subtree(task):
 
 def run(chk):
     chk.extra['source_digest'] = common.source_digest(FILES)
-    chk.prove([(MODULE, THEOREMS), ('NautilusVerif.Properties.CoreTie', ['Core_tie_unionSplit', 'Core_tie_unionTrim', 'Core_tie_unionReset'])], None, {'NautilusVerif/Generated/CoreSrc.lean': __import__('gen_core').generate(common.REPO)[0]})
+    chk.prove([(MODULE, THEOREMS), *common.core_tie(['unionSplit', 'unionTrim', 'unionReset'])], None, {'NautilusVerif/Generated/CoreSrc.lean': __import__('gen_core').generate(common.REPO)[0]})
     if chk.tier == 'thorough':
-        chk.leanchecker([MODULE, 'NautilusVerif.Properties.CoreTie'])
+        chk.leanchecker([MODULE])
     depth = 4 if chk.tier == 'quick' else 5
     s = chk.seed
     # fixed corpus first (point sets on which the pinned code violated the property: D6 and D2)
